@@ -11,7 +11,7 @@ hist  = [txn...]     txn = [mode (0 writer | 1 writer(replacement=True) | 2 read
                                      clean exit -> commit),
                             ops, fault (style 1: index after which an exception is injected, -1 none)]
 op    = [1 add|2 replace|3 delete|4 delete_exact, [arg...]] | [5, value, relative, name-arg|None] (update_serial)
-        | [6, name-arg, rdtype, covers] get | [7, name-arg] name_exists | [8] changed | [9] iterate counts
+        | [6, name-arg, rdtype, covers(, 1 = types given as text)] get | [7, name-arg] name_exists | [8] changed | [9] iterate counts
         | [10, name-arg] get_node | [11] commit | [12] rollback
 arg   = [0, labels] Name | [1, labels] str name | [2, rds] Rdataset | [3, labels, rds] RRset | [4, int]
         | [5, [rdtype, covers, body, aux, rdclass]] Rdata | [6, rdtype] type as text | [7] None
@@ -242,7 +242,10 @@ def do_op(txn, op):
             txn.update_serial(op[1], bool(op[2]), mk_arg(op[3]))
         return None
     if k == 6:
-        r = txn.get(mk_arg(op[1]), op[2], op[3])
+        if len(op) > 4:
+            r = txn.get(mk_arg(op[1]), dns.rdatatype.to_text(op[2]), dns.rdatatype.to_text(op[3]))
+        else:
+            r = txn.get(mk_arg(op[1]), op[2], op[3])
         return None if r is None else dump_rds(r)
     if k == 7:
         return int(txn.name_exists(mk_arg(op[1])))
@@ -1029,10 +1032,11 @@ class Gen:
             return [5, value, relative, name]
         if r < 0.82:
             e = self.pick(0.7)
+            text = [1] if rng.random() < 0.3 else []
             if e is not None:
-                return [6, self.owner(e[0]), e[1], e[2]]
+                return [6, self.owner(e[0]), e[1], e[2]] + text
             ty, cov = self.tc()
-            return [6, self.owner(), ty, cov]
+            return [6, self.owner(), ty, cov] + text
         if r < 0.87:
             e = self.pick(0.6)
             return [7, self.owner(e[0] if e else None)]
